@@ -18,7 +18,7 @@ ASSUMPTIONS = [
 NSHARDS = {"quick": 32, "thorough": 64}
 BUDGET_S = {"quick": 200, "thorough": 1800}
 MIN_HITS = {
-    'quick': {"pair": 4895, "len_constraint": 90, "sig_token": 160, "pubkey_token": 160, "pkh_token": 160, "self": 16852, "criteria": 10240, "expect_match": 2187, "expect_nomatch": 2627},
+    'quick': {"pair": 4925, "len_constraint": 90, "sig_token": 160, "pubkey_token": 160, "pkh_token": 160, "self": 16852, "criteria": 10240, "expect_match": 2202, "expect_nomatch": 2642},
     'thorough': {"pair": 675855, "len_constraint": 108, "mixed": 115194, "sig_token": 30720, "pubkey_token": 30720, "pkh_token": 30720, "self": 80192, "criteria": 1536000},
 }
 PSEUDO = {251, 252, 253, 254}
@@ -82,6 +82,16 @@ def cases(ctx):
                     tok = gen.push_tok(r, L, minimal)
                     pre = [("op", r.choice(OPC))] if r.random() < 0.5 else []
                     yield {"k": "pair", "script": wire.detok(pre + [tok]).hex(), "tmpl": " ".join([wire.OPNAMES[p[1]] if p[1] else "OP_0" for p in pre] + ["OP_DATA%s%d" % (sym, n)]), "tag": "len_constraint"}
+    # the EMPTY push in its three explicit forms (4c00, 4d0000, 4e00000000) against every operator with bounds 0 and 1
+    for sym, _ in template.OPS:
+        for n in (0, 1):
+            for code, w in ((76, 1), (77, 2), (78, 4)):
+                k += 1
+                if k % N != S:
+                    continue
+                sc = bytes([code]) + (0).to_bytes(w, "little")
+                yield {"k": "pair", "script": sc.hex(), "tmpl": "OP_DATA%s%d" % (sym, n), "tag": "len_constraint_empty_push"}
+                yield {"k": "pair", "script": (b"\x76" + sc).hex(), "tmpl": "OP_DUP OP_DATA%s%d" % (sym, n), "tag": "len_constraint_empty_push"}
     if S == 0:
         ctx.exhaustive.append("five comparison operators x N in {0,1,20,75,76,255,256} x push lengths N-1,N,N+1 x {minimal, non-minimal push form}")
     # typed tokens
@@ -176,8 +186,15 @@ def cases(ctx):
         for j_, e in enumerate(ext):
             if e is not None and (r.random() < 0.4 or not ins[j_]["script"]):
                 e["locking"] = r.choice([p2pkh, p2pkh, b"\x6a"]).hex()
+        api_inputs = None
+        if ni and i % 3 == 0:
+            # one input is re-created through TxIn::new on the NULL outpoint but with an ordinary (non-coinbase) script
+            j_ = r.randrange(ni)
+            api_inputs = {str(j_): {"txid": "00" * 32, "vout": 0xFFFFFFFF, "script": ins[j_]["script"].hex(), "seq": ins[j_]["seq"]}}
         for mask in range(16):
             c = {"k": "criteria", "tx": wire.tx_encode(tx).hex(), "ext": ext}
+            if api_inputs:
+                c["api_inputs"] = api_inputs
             if mask & 1:
                 c["tmpl"] = r.choice(["OP_DUP OP_HASH160 OP_PUBKEYHASH OP_EQUALVERIFY OP_CHECKSIG", "OP_DUP OP_HASH160 %s OP_EQUALVERIFY OP_CHECKSIG" % pk.hex(), "OP_DATA OP_DATA=33", "OP_RETURN", "OP_DATA OP_DATA=33 OP_DUP OP_HASH160 OP_PUBKEYHASH OP_EQUALVERIFY OP_CHECKSIG"])
             if mask & 2:
@@ -258,9 +275,11 @@ def judge(ctx, case):
         ex, mn, mx = case.get("exact"), case.get("min"), case.get("max")
         ctx.hit("criteria_mask_%d" % ((1 if tm else 0) | (2 if ex is not None else 0) | (4 if mn is not None else 0) | (8 if mx is not None else 0)))
         req = {"op": "criteria", "tx": case["tx"], "ext": case["ext"], "order": case.get("order", ["tmpl", "exact", "min", "max"])}
-        for f in ("tmpl", "exact", "min", "max"):
+        for f in ("tmpl", "exact", "min", "max", "api_inputs"):
             if f in case:
                 req[f] = case[f]
+        if "api_inputs" in case:
+            ctx.hit("ordinary_script_on_null_outpoint")
         r = ctx.call(req)
         ctx.ev()
         if "ok" not in r:
